@@ -47,6 +47,9 @@ Proof.
     destruct b as [bv bc bt]. cbn in *. now rewrite K1, K2.
 Qed.
 
+Lemma firstn_app_exact {X} (a b : list X) n : List.length b = n -> firstn (List.length (a ++ b) - n) (a ++ b) = a.
+Proof. intros L. rewrite app_length, L. replace (List.length a + n - n)%nat with (List.length a) by lia. rewrite firstn_app, firstn_all, Nat.sub_diag. cbn. now rewrite app_nil_r. Qed.
+
 Section HB.
 Variable im : image.
 Variable p : prog.
@@ -95,13 +98,14 @@ Theorem hsim_let c he hs s sp v t tag args next lc code lc' pc he0 fs tn hl fl c
   (forall en, In en he -> chi_of (h_val en) = Ext -> h_ptr en = 0) ->
   let res := Heap.alloc_object (map store_ptr fs) hs in
   Heap.frontier (snd res) + 64 <= LIMIT -> Heap.heap (snd res) <> 0 -> Heap.free (snd res) <> 0 ->
-  exists c12 c3 lc1 c0 s',
+  let c0 := firstn (List.length c - List.length args) c in
+  exists c12 c3 lc1 s',
     code = c12 ++ c3 /\ xcs (ptypes p) next (c0 ++ [mkb v Prd t]) lc1 = Ok (c3, lc') /\
     lin_check (sigs_of p) (c0 ++ [mkb v Prd t]) next = true /\
     exec_to im pc s (padd pc (List.length c12)) s' /\
     hrel (c0 ++ [mkb v Prd t]) (he0 ++ [(v, VObj tn tag (map h_val fs), fst res)]) (snd res) s' sp /\ hframe_eq s s' sp.
 Proof.
-  intros R LC CS CA LA TN SL IA K03 EX res HF HH0 HF0.
+  intros R LC CS CA LA TN SL IA K03 EX res HF HH0 HF0 c0'.
   destruct (cs_let _ _ _ _ _ _ _ _ _ _ CS) as (d & k & rest & arguments & c1 & lc1 & tmpv & c3 & LT & XP & BS & XS & TV & NX & ->).
   apply bsplit_last_app in BS as [-> LA1]. apply asplit_last_app in SL as [-> LF].
   apply ty_name_Decl in TN. subst t.
@@ -148,7 +152,8 @@ Proof.
       destruct (same_kt_nth _ _ i ba SKT Ha) as (b1 & Hb1 & K3 & K4).
       destruct (same_kt_nth _ _ i b1 AO Hb1) as (b2 & Hb2 & K5 & K6).
       assert (b2 = b) by congruence. subst b2. split; congruence. }
-  exists (c1 ++ x_load_immediate tmpv (jump_length k)), c3, lc1, rest, s2.
+  assert (EC0 : c0' = rest) by (unfold c0'; apply firstn_app_exact; exact LA1). rewrite EC0. clear EC0 c0'.
+  exists (c1 ++ x_load_immediate tmpv (jump_length k)), c3, lc1, s2.
   split; [now rewrite app_assoc|]. split; [exact NX|]. split; [exact LCn|]. split.
   { rewrite app_length, padd_add. eapply exec_to_trans; [exact X1|]. apply (exec_straight_exec_to im _ _ s1 s2 CA2 E2). }
   split; [|eapply hframe_eq_trans; [exact FE1|apply frame_eq_hframe; exact FE2]].
@@ -169,13 +174,14 @@ Theorem hsim_create c he hs s sp v t env cls next lc code lc' pc he0 cap tn ce h
   (forall en, In en he -> chi_of (h_val en) = Ext -> h_ptr en = 0) ->
   let res := Heap.alloc_object (map store_ptr cap) hs in
   Heap.frontier (snd res) + 64 <= LIMIT -> Heap.heap (snd res) <> 0 -> Heap.free (snd res) <> 0 ->
-  exists c12 c3 lc2 lc3 c0 rest' s',
+  let c0 := firstn (List.length c - List.length env) c in
+  exists c12 c3 lc2 lc3 rest' s',
     code = c12 ++ c3 ++ rest' /\ xcs (ptypes p) next (c0 ++ [mkb v Cns t]) lc2 = Ok (c3, lc3) /\
     lin_check (sigs_of p) (c0 ++ [mkb v Cns t]) next = true /\
     exec_to im pc s (padd pc (List.length c12)) s' /\
     hrel (c0 ++ [mkb v Cns t]) (he0 ++ [(v, VClo tn cls ce, fst res)]) (snd res) s' sp /\ hframe_eq s s' sp.
 Proof.
-  intros R LC ANN ANC CS CA LA NHL TN SL BD IA K03 EX res HF HH0 HF0.
+  intros R LC ANN ANC CS CA LA NHL TN SL BD IA K03 EX res HF HH0 HF0 c0'.
   destruct (cs_create _ _ _ _ _ _ _ _ _ _ CS) as (rest & cenv & c1 & lc1 & tmpv & c3 & lc3 & c5 & BS & XS & TV & NX & CC & ->).
   apply bsplit_last_app in BS as [-> LA1]. apply asplit_last_app in SL as [-> LF].
   apply ty_name_Decl in TN. subst t.
@@ -239,7 +245,8 @@ Proof.
   destruct (load_label_ok im s1 sp tmpv fresh a (hr_frame R1) L2 N2 LAD) as (s2 & E2 & V2 & P2).
   assert (FE2 : frame_eq s1 s2 sp).
   { eapply exec_straight_local; eauto using hr_frame. apply local_load_label, loc_ok_lok, L2. }
-  exists (c1 ++ x_load_label tmpv fresh), c3, (lc1 + 1)%N, lc3, rest, (([LAB fresh] ++ table_or_nil cls fresh) ++ c5), s2.
+  assert (EC0 : c0' = rest) by (unfold c0'; apply firstn_app_exact; exact LA1). rewrite EC0. clear EC0 c0'.
+  exists (c1 ++ x_load_label tmpv fresh), c3, (lc1 + 1)%N, lc3, (([LAB fresh] ++ table_or_nil cls fresh) ++ c5), s2.
   split; [now rewrite <- !app_assoc|]. split; [exact NX|]. split; [exact LCn|]. split.
   { rewrite app_length, padd_add. eapply exec_to_trans; [exact X1|]. apply (exec_straight_exec_to im _ _ s1 s2 CA2 E2). }
   split; [|eapply hframe_eq_trans; [exact FE1|apply frame_eq_hframe; exact FE2]].
